@@ -22,7 +22,7 @@ def sig(case, d):
 
 
 def run(ctx):
-    n = 16 if ctx.quick else 600
+    n = 16 if ctx.quick else 300
     nf.check_cases(ctx, mode="c40", n=n, module=MODULE, cfg=CFG, diag_cfg=DIAG, chunks=4,
                    timeout=900 if ctx.quick else 3400, nontrivial_fn=nontrivial, sig_fn=sig)
     ctx.cov["rule"] = ("cases = seeded hosts: failsafe inbound/outbound port subsets (some restricted to a net, some of the other "
